@@ -155,16 +155,19 @@ def json_tree_edits(quick):
         # edits that belong together: every space (or every space but one outside the envelope) is uninhabited and no building-wide
         # ventilation flow is given: a building with windows and a reference area of 0
         if base.get("spaces"):
-            for how in ("all", "habitable one outside"):
+            for how in ("all", "habitable one outside", "all, flow kept"):
                 doc = copy.deepcopy(base)
                 for sp in doc["spaces"]:
                     sp["kind"] = "UNINHABITED"
-                if how != "all":
+                if how == "habitable one outside":
                     doc["spaces"][-1]["kind"] = "CONDITIONED"
                     doc["spaces"][-1]["inside_tenv"] = False
-                doc.get("meta", {}).pop("global_ventilation_l_s", None)
+                if how == "all, flow kept":
+                    doc.setdefault("meta", {})["global_ventilation_l_s"] = 50.0
+                else:
+                    doc.get("meta", {}).pop("global_ventilation_l_s", None)
                 reqs.append({"json": json.dumps(doc), "ops": ["compute_lite"], "lite": True, "probe_json": probe, "name": fn,
-                             "edit": "spaces uninhabited (%s) ; no building-wide ventilation flow" % how})
+                             "edit": "spaces uninhabited (%s) ; building-wide ventilation flow %s" % (how, "kept" if how == "all, flow kept" else "removed")})
         # two edits that belong together: a space takes another load profile, and a daily schedule gets one value more or
         # fewer than 24 (profiles of different lengths meeting on the same day)
         loads = [l.get("id") for l in base.get("loads", [])]
